@@ -547,6 +547,15 @@ def dedup(l):
 
 
 def oracle(base, prog, res):
+    """the property on one (program, result); a frame that cannot even be inspected (categorical codes outside their label list,
+    ...) is a failing input, not a harness error"""
+    try:
+        return _oracle(base, prog, res)
+    except Exception as e:      # noqa
+        return [("cells", "the frame(s) returned cannot be inspected: %s: %s (%s)" % (type(e).__name__, str(e)[:120], traceback.format_exc().strip().split("\n")[-3].strip()[:120]))]
+
+
+def _oracle(base, prog, res):
     """base: dict(parts, full_cells, full_cols, full_index, avail).  Returns list of (what, text)."""
     probs = []
     exp = expected_selection(base["parts"], prog["ops"], prog.get("filters"), base["full_ids"])
